@@ -14,8 +14,9 @@ STRENGTHENED = {
     "C07b": "missed: added idiom 69 (wrapped row ending in a wide character, erase on its last columns)",
     "C01": "caught by the oracle's palette sweep only: added boundary palette indices (idiom 78, sgr family) so the correspondence sees it too",
     "C03": "caught by the oracle's CSI sweep only: added idiom 79 (cursor outside the region + IL/DL/SU/SD)",
-    "C04": "caught by the oracle only: added idiom 80 (C1 controls next to 2-byte characters, split by the chunk cuts)",
+    "C04": "detected in runs 1-7 (oracle, then also correspondence after idiom 80). EQUIVALENT since fix 5a439e4: print() no longer receives C1 characters because process() never lets vte resume a split UTF-8 sequence, so the narrowed range is unreachable; the worker's demonstration passes with the change applied and exit 0 is the correct verdict",
     "C09": "as C01",
+    "C10f": "caught with a single disagreement in runs 6 and 7, missed in run 8 after the random streams shifted: the table family now enumerates DECSET/DECRST/SGR/DECSED lists of 31-40 parameters and idiom 76 adds long private-mode lists",
     "C10": "caught by the oracle's mode table only: added multi-parameter DECSET/DECRST with unknown modes in between (idiom 81, modes family)",
     "C11": "caught by the oracle's built-in DECSC scenario only: added idiom 82 (DECSC with origin mode/region/pen, region changed so that it excludes the saved row, DECRC) to the alt and stream families",
     "C11b": "1 disagreement in 1500 at first: idiom 69 got a wide-over-wide variant and the alt family draws wrap idioms while the alternate grid is active",
@@ -39,6 +40,7 @@ STRENGTHENED = {
     "C05g": "1 disagreement at first: a third of the opx pre-states now carry a non-default pen",
     "C07g": "1 disagreement: opx got rows that are wrapped AND end in a wide character (cursor classes on its first half)",
     "C12g": "1 disagreement at first: the resize family got 'region anchored at the top, shrink to its height, scroll, look at the history'",
+    "C18": "the same source change as C04 (C1 range in WrappedScreen::print): detected in runs 1-7, EQUIVALENT since fix 5a439e4 (see C04)",
     "C18b": "caught by the oracle's token table only: added idiom 83 (ESC with intermediates and every kind of final byte)",
 }
 res = {}
@@ -74,8 +76,9 @@ for sid in ids:
     if rc == "1":
         ok += 1
     out.append("| %s | %s | %s | %s | %s | %s%s | %s |\n" % (sid, s, rc, d, o, how, " (no-failing-input-found)" if nf else "", STRENGTHENED.get(sid, "caught as generated")))
-out.append("\n%d of %d changes are reported as `VIOLATION` (exit 1) by the quick tier of the property they target; %d of the\n"
-           "reports end in `no-failing-input-found` (correspondence broken, no concrete failing input: see the history column). On the unchanged tree the same 19 commands exit 0.\n" % (ok, len(ids), sum(1 for v in res.values() if v[3])))
+EQUIV = {"C04", "C18"}
+out.append("\n%d of %d changes are reported as `VIOLATION` (exit 1) by the quick tier of the property they target (the other %d became behaviour-preserving when defect K04a was repaired: exit 0 is correct for them); %d of the\n"
+           "reports end in `no-failing-input-found` (correspondence broken, no concrete failing input: see the history column). On the unchanged tree the same 19 commands exit 0.\n" % (ok, len(ids), len(ids) - ok, sum(1 for v in res.values() if v[3])))
 out.append("\nWhat the table shows about the design: every change to *logic* is seen first by the correspondence (the model\n"
            "computes the prescribed result, the crate something else); the oracle then says which clause of the\n"
            "property is violated and supplies the replay. Changes that only manifest on rare inputs were the ones missed at\n"
